@@ -74,6 +74,14 @@ def run(spec, rec):
         data = Spectrum(ddat, mask=dmask, mask_corners=corners)
         if folded_data:
             data = data.fold()
+        if ci % 5 == 3:
+            # what is stored underneath a mask is not part of the spectrum: nan or inf there (extrapolation junk, missing entries)
+            # must not reach any result
+            junk = [np.nan, np.inf, -np.inf][ci % 3]
+            for sp in (model, data):
+                mk = np.asarray(np.ma.getmaskarray(sp))
+                if mk.any():
+                    sp.data[mk] = junk
         if zero_model:
             # a model that is exactly zero in some cells where the data are zero too (the spectrum of the data itself used as model,
             # a class no sampled site can fall in): such a cell has probability one and contributes nothing
@@ -250,8 +258,8 @@ def run(spec, rec):
         # the same model OBJECT edited in place (an entry masked, an entry overwritten, the whole model rescaled) and evaluated again:
         # every function is a function of the current contents of its arguments
         # (done last; the untouched check comes first)
-        same = (np.array_equal(model.data, snap[0]) and np.array_equal(np.asarray(model.mask), snap[1])
-                and np.array_equal(data.data, snap[2]) and np.array_equal(np.asarray(data.mask), snap[3]))
+        same = (np.array_equal(model.data, snap[0], equal_nan=True) and np.array_equal(np.asarray(model.mask), snap[1])
+                and np.array_equal(data.data, snap[2], equal_nan=True) and np.array_equal(np.asarray(data.mask), snap[3]))
         rec.check("inputs-untouched", same, site="Inference", tags=tags)
         if nJ >= 4:
             um = np.argwhere(~np.asarray(np.ma.getmaskarray(model)))
